@@ -22,8 +22,8 @@ RTX_fine-tiny := simrt/race_free.cpp
 RTX_asan-default :=
 RTX_asan-nosba :=
 
-ASANFLAGS := -fsanitize=address,undefined -fno-sanitize-recover=all -fno-omit-frame-pointer \
-             -fsanitize-coverage=trace-pc-guard -fsanitize-coverage-ignorelist=simrt/cov_ignorelist.txt
+ASANFLAGS := -fsanitize=address,undefined -fno-sanitize-recover=all -fno-omit-frame-pointer -fno-inline \
+             -fsanitize-coverage=trace-pc-guard,no-prune -fsanitize-coverage-ignorelist=simrt/cov_ignorelist.txt
 # fine-*: the tsan pass also instruments plain memory accesses (they become simulation points)
 FINEPASS := -fno-inline -fsanitize=thread -mllvm -tsan-instrument-func-entry-exit=0
 VARIANTS := sim-default sim-tiny fine-default fine-tiny asan-default asan-nosba
